@@ -14,6 +14,8 @@ package main
 import (
 	"crypto/sha256"
 	"crypto/sha512"
+	"crypto/x509"
+	"encoding/pem"
 	"encoding/base64"
 	"encoding/hex"
 	"encoding/json"
@@ -228,6 +230,29 @@ func buildLayout(sc *Scn, runDirPrefix string) intoto.Layout {
 			l.RootCas = map[string]intoto.Key{certCtx.root.Key.KeyID: certCtx.root.Key}
 		}
 		l.Steps = append(l.Steps, s)
+	}
+	// CA entries of the layout: every entry must yield a certificate, or the layout is unusable (nothing is verified
+	// against an incomplete pool); an unused but well-formed root is harmless
+	caKey := func(cert, public string) intoto.Key {
+		return intoto.Key{KeyID: sha("ca entry " + cert + public), KeyIDHashAlgorithms: []string{"sha256", "sha512"}, KeyType: "rsa", Scheme: "rsassa-pss-sha256",
+			KeyVal: intoto.KeyVal{Certificate: cert, Public: public}}
+	}
+	switch sc.Defect {
+	case "ca-root-unparsable":
+		k := caKey("-----BEGIN CERTIFICATE-----\nQUJDREVGR0g=\n-----END CERTIFICATE-----\n", "")
+		l.RootCas = map[string]intoto.Key{k.KeyID: k}
+	case "ca-root-public-key-only":
+		k := caKey("", pk(pool[0]).Pub.KeyVal.Public)
+		k.KeyType, k.Scheme = pk(pool[0]).Pub.KeyType, pk(pool[0]).Pub.Scheme
+		l.RootCas = map[string]intoto.Key{k.KeyID: k}
+	case "ca-intermediate-unparsable":
+		good := lib.NewCA("verif-root", nil, lib.CertOpts{})
+		k := caKey("-----BEGIN CERTIFICATE-----\n!!!!\n-----END CERTIFICATE-----\n", "")
+		l.RootCas = map[string]intoto.Key{good.Key.KeyID: good.Key}
+		l.IntermediateCas = map[string]intoto.Key{k.KeyID: k}
+	case "ca-root-valid-unused":
+		good := lib.NewCA("verif-root", nil, lib.CertOpts{})
+		l.RootCas = map[string]intoto.Key{good.Key.KeyID: good.Key}
 	}
 	last := sc.Steps[len(sc.Steps)-1].Name
 	for _, in := range sc.Insps {
@@ -567,10 +592,11 @@ var defects = map[string][]string{
 	"c01": {"none", "none", "alter-expires", "alter-readme", "alter-threshold", "alter-rule", "alter-command", "alter-insp-run", "alter-keys",
 		"alter-pubkeys", "drop-signature", "corrupt-signature", "dup-signature", "reorder-signatures", "forged-keyid", "extra-foreign-signature",
 		"verifier-plus-one", "verifier-minus-one", "verifier-empty", "signed-by-others", "link-instead-of-layout",
+		"ca-root-unparsable", "ca-root-public-key-only", "ca-intermediate-unparsable", "ca-root-valid-unused",
 		"dup-signature-missing-key", "keyid-collision-history",
 		"case-variant-member-evil-first-dsse", "case-variant-member-evil-last-dsse", "case-variant-member-evil-first-legacy", "case-variant-member-evil-last-legacy",
 		"verifier-key-malformed-legacy", "verifier-key-malformed-dsse", "alter-payload-strip-sig-padding", "verifier-key-cert-only-forged"},
-	"c05": {"none", "disagree-product-digest", "disagree-product-path", "disagree-material-digest", "disagree-algorithm", "disagree-algorithm-material",
+	"c05": {"required-link-missing", "required-link-unreadable", "none", "disagree-product-digest", "disagree-product-path", "disagree-material-digest", "disagree-algorithm", "disagree-algorithm-material",
 		"junk-uncounted-badsig", "junk-uncounted-unauthorised", "extra-agreeing-link", "byproducts-differ",
 		"threshold1-disagree-product-digest", "threshold1-disagree-algorithm", "threshold1-agree",
 		"permissive-disagree-algorithm", "permissive-disagree-algorithm-material", "permissive-disagree-product-digest", "permissive-none",
@@ -618,7 +644,7 @@ func genScenario(r *lib.Rng, focus string, idx int) *Scn {
 	switch focus {
 	case "c01":
 		switch d {
-		case "none", "dup-signature", "reorder-signatures", "extra-foreign-signature":
+		case "none", "dup-signature", "reorder-signatures", "extra-foreign-signature", "ca-root-valid-unused":
 			if d == "reorder-signatures" && len(sc.Owners) < 2 {
 				sc.Owners = pool[:2]
 				sc.Verifiers = pool[:2]
@@ -1313,7 +1339,7 @@ func materialise(sc *Scn, root string, r *lib.Rng) *world {
 		final[p] = c
 	}
 	curAlg, curNorm = "sha256", false
-	sc.ExpectSummary = lib.ShowLinkCore(intoto.Link{Name: "summary-name", Materials: w.expMat, Products: w.expProd})
+	sc.ExpectSummary = wrapperTag(w.layoutMeta) + lib.ShowLinkCore(intoto.Link{Name: "summary-name", Materials: w.expMat, Products: w.expProd})
 	for p, c := range final {
 		fp := filepath.Join(w.prodDir, p)
 		os.MkdirAll(filepath.Dir(fp), 0o755)
@@ -1395,6 +1421,12 @@ func applyLinkDefects(sc *Scn, w *world, r *lib.Rng) {
 		return ks[len(ks)-1]
 	}
 	switch strings.TrimPrefix(strings.TrimPrefix(sc.Defect, "permissive-"), "threshold1-") {
+	case "required-link-missing":
+		// one of the links the step's threshold needs is not there
+		must(os.Remove(p))
+	case "required-link-unreadable":
+		// ... or is there but is not a metadata file (cut off in transfer): skipped, the threshold is not met
+		must(os.WriteFile(p, []byte("{\"signed\": {\"_type\": \"link\","), 0o644))
 	case "disagree-product-digest":
 		resign(func(l *intoto.Link) { l.Products[anyKey(l.Products)] = hobj("something else") })
 	case "disagree-algorithm-material":
@@ -1894,9 +1926,36 @@ func runImplOn(sc *Scn, w *world, lm intoto.Metadata) (o obs) {
 	}
 	o.Verdict = "accept"
 	if l, ok := sum.GetPayload().(intoto.Link); ok {
-		o.Summary = lib.ShowLinkCore(l)
+		o.Summary = wrapperTag(sum) + lib.ShowLinkCore(l)
 	}
 	return
+}
+
+// the summary link comes in the wrapper of the layout it summarises
+func wrapperTag(m intoto.Metadata) string {
+	if _, ok := m.(*intoto.Envelope); ok {
+		return "D:"
+	}
+	return "L:"
+}
+
+// pemHasCert: does the text contain at least one PEM block that is a parsable certificate (what
+// x509.CertPool.AppendCertsFromPEM needs to report success), decided with encoding/pem and crypto/x509 directly
+func pemHasCert(text string) bool {
+	rest := []byte(text)
+	for {
+		var b *pem.Block
+		b, rest = pem.Decode(rest)
+		if b == nil {
+			return false
+		}
+		if b.Type != "CERTIFICATE" || len(b.Headers) != 0 {
+			continue
+		}
+		if _, err := x509.ParseCertificate(b.Bytes); err == nil {
+			return true
+		}
+	}
 }
 
 func snapshot(lm intoto.Metadata, keys map[string]intoto.Key, params map[string]string) string {
@@ -1951,7 +2010,7 @@ func runHistory(sc *Scn, w *world) (out string) {
 			} else {
 				o.Verdict = "accept"
 				if l, ok := sum.GetPayload().(intoto.Link); ok {
-					o.Summary = lib.ShowLinkCore(l)
+					o.Summary = wrapperTag(sum) + lib.ShowLinkCore(l)
 					fb, _ := json.Marshal(l)
 					full = string(fb)
 				}
@@ -1980,7 +2039,7 @@ func runHistory(sc *Scn, w *world) (out string) {
 		} else {
 			o2.Verdict = "accept"
 			if l, ok := sum2.GetPayload().(intoto.Link); ok {
-				o2.Summary = lib.ShowLinkCore(l)
+				o2.Summary = wrapperTag(sum2) + lib.ShowLinkCore(l)
 			}
 		}
 		if o2.String() != first && !strings.Contains(flags, "DIFFERS-FROM-FRESH") {
@@ -2258,6 +2317,29 @@ func coqModelAt(sc *Scn, w *world, params map[string]string, nowNs int64) string
 	}
 	add("LAYOUT", w.layoutPath, w.layoutMeta)
 	dir.Walk(func(f lib.DirFile) { add(f.Tag, filepath.Join(w.linkDir, f.Tag), f.Meta) })
+	// CA entries (of the layout and of every sublayout) whose PEM text yields at least one certificate
+	var pems []string
+	seenPem := map[string]bool{}
+	addPems := func(m intoto.Metadata) {
+		if m == nil {
+			return
+		}
+		l, ok := m.GetPayload().(intoto.Layout)
+		if !ok {
+			return
+		}
+		for _, cas := range []map[string]intoto.Key{l.RootCas, l.IntermediateCas} {
+			for _, id := range lib.SortedKeys(cas) {
+				t := cas[id].KeyVal.Certificate
+				if !seenPem[t] && pemHasCert(t) {
+					seenPem[t] = true
+					pems = append(pems, lib.CoqStr(t))
+				}
+			}
+		}
+	}
+	addPems(w.layoutMeta)
+	dir.Walk(func(f lib.DirFile) { addPems(f.Meta) })
 	// world: files of the run directory
 	var files []string
 	for _, p := range lib.SortedKeys(w.final) {
@@ -2300,7 +2382,7 @@ func coqModelAt(sc *Scn, w *world, params map[string]string, nowNs int64) string
 		prefix = w.runDirArg
 	}
 	return "(e2e_run " + strconv.FormatInt(nowNs, 10) + "%Z " +
-		lib.CoqList(truths, "str * str") + " " + lib.CoqList(tc, "str * key") + " " + lib.CoqList(tcc, "str * str") + " " +
+		lib.CoqList(truths, "str * str") + " " + lib.CoqList(tc, "str * key") + " " + lib.CoqList(tcc, "str * str") + " " + lib.CoqList(pems, "str") + " " +
 		lib.CoqList(cmds, "list str * cmdkind") + " " +
 		lib.CoqStr(prefix) + " " + lib.CoqList(files, "str * str") + " " +
 		lib.CoqLinkDir(dir) + " " +
